@@ -214,13 +214,20 @@ def run_queue_damage_histories(prop, tier, seed):
                         sent.append(f'before{i} é')
                     with open(path, 'ab') as f:
                         f.write(damage)
-                    got = [p.data for p in reader.receive()]
-                    for i in range(nafter):
-                        writer.send(to='r', data=f'after{i} ü')
-                        sent.append(f'after{i} ü')
-                        got += [p.data for p in reader.receive()]
-                    got += [p.data for p in reader.receive()]
                     cases += 1
+                    try:
+                        # a reader drains what is there with list(): a damaged line must be skipped, not abort the pass
+                        got = [p.data for p in list(reader.receive())]
+                        for i in range(nafter):
+                            writer.send(to='r', data=f'after{i} ü')
+                            sent.append(f'after{i} ü')
+                            got += [p.data for p in list(reader.receive())]
+                        got += [p.data for p in list(reader.receive())]
+                    except Exception as e:  # noqa: BLE001
+                        failures.append({'witness': {'damaged_line_bytes': repr(damage), 'packets_before': nbefore, 'packets_after': nafter},
+                                         'detail': f'receive() raised {type(e).__name__}: {e}'[:200] + ' (a damaged line has to be skipped)',
+                                         'cls': 'receive-raises-on-a-damaged-line'})
+                        continue
                     if len(samples) < 2:
                         samples.append({'damage': repr(damage), 'sent': sent, 'delivered': got})
                     if got != sent:
